@@ -71,7 +71,8 @@ pub struct CanonicalFormatter {
 /// ```
 #[derive(Debug, Default)]
 struct Object {
-    obj: BTreeMap<Vec<u8>, Vec<u8>>,
+    /// Maps the key as a plain string (the sort key) to the serialized key and value.
+    obj: BTreeMap<Vec<u8>, (Vec<u8>, Vec<u8>)>,
     next_key: Vec<u8>,
     next_value: Vec<u8>,
     key_done: bool,
@@ -137,6 +138,29 @@ macro_rules! float_err {
             "floating point numbers are not allowed in canonical JSON",
         ))
     };
+}
+
+/// Object members are ordered by their keys as strings, not by the quoted and escaped form that is
+/// written out: otherwise `"a"` would sort after `"a b"` (the closing quote compares greater than
+/// a space) and keys containing quotes or backslashes would be misplaced.
+fn sort_key(serialized: &[u8]) -> Vec<u8> {
+    let inner = match serialized {
+        [b'"', inner @ .., b'"'] => inner,
+        other => other,
+    };
+    let mut key = Vec::with_capacity(inner.len());
+    let mut bytes = inner.iter();
+    while let Some(&byte) = bytes.next() {
+        // Only quotes and backslashes are escaped in canonical JSON (see `write_char_escape`).
+        if byte == b'\\' {
+            if let Some(&escaped) = bytes.next() {
+                key.push(escaped);
+            }
+        } else {
+            key.push(byte);
+        }
+    }
+    key
 }
 
 impl Formatter for CanonicalFormatter {
@@ -238,7 +262,7 @@ impl Formatter for CanonicalFormatter {
         let mut writer = self.writer(writer);
         let mut first = true;
 
-        for (key, value) in object.obj {
+        for (_, (key, value)) in object.obj {
             CompactFormatter.begin_object_key(&mut writer, first)?;
             writer.write_all(&key)?;
             CompactFormatter.end_object_key(&mut writer)?;
@@ -273,7 +297,7 @@ impl Formatter for CanonicalFormatter {
         let object = self.obj_mut()?;
         let key = std::mem::take(&mut object.next_key);
         let value = std::mem::take(&mut object.next_value);
-        object.obj.insert(key, value);
+        object.obj.insert(sort_key(&key), (key, value));
         Ok(())
     }
 
